@@ -123,6 +123,62 @@ func (fr *frame) loopVarValueT(li *loopInfo, name, decl string, st *State, phiVa
 				return fr.regs[p], true
 			}
 		}
+		// The variable was renamed (or a counting loop became a range loop): fall back to what the
+		// declaration can only mean. (1) `name int`: the loop's counter, if it has exactly one.
+		if decl == "int" {
+			var cands []Value
+			for _, ins := range li.header.Instrs {
+				phi, ok := ins.(*ssa.Phi)
+				if !ok {
+					break
+				}
+				if bt, ok := phi.Type().Underlying().(*types.Basic); !ok || bt.Kind() != types.Int {
+					continue
+				}
+				if fr.monotone(li, phi) <= 0 {
+					continue
+				}
+				pv, ok := phiVal(phi).(*Term)
+				if !ok {
+					continue
+				}
+				if phi.Comment == "rangeindex" {
+					cands = append(cands, fr.c.f.Add(pv, fr.c.f.Int(1)))
+				} else {
+					cands = append(cands, pv)
+				}
+			}
+			if len(cands) == 1 {
+				fr.c.note("loop %d of %s: contract variable %q not found by name; bound to the loop's only counter", li.ordinal, fr.fn.Name(), name)
+				return cands[0], true
+			}
+		}
+		// (2) a unique local of exactly the declared type, defined before the loop
+		if decl != "" && decl != "int" {
+			var cand types.Object
+			n := 0
+			seenObj := map[types.Object]bool{}
+			for _, b := range fr.fn.Blocks {
+				for _, ins := range b.Instrs {
+					if dr, ok := ins.(*ssa.DebugRef); ok {
+						obj := dr.Object()
+						if obj == nil || seenObj[obj] || !fr.typeMatches(obj, decl) {
+							continue
+						}
+						if _, isVar := obj.(*types.Var); !isVar {
+							continue
+						}
+						seenObj[obj] = true
+						cand = obj
+						n++
+					}
+				}
+			}
+			if n == 1 && cand.Name() != name {
+				fr.c.note("loop %d of %s: contract variable %q not found by name; bound to %q, the only local of type %s", li.ordinal, fr.fn.Name(), name, cand.Name(), decl)
+				return fr.loopVarValueT(li, cand.Name(), decl, st, phiVal)
+			}
+		}
 		return nil, false
 	}
 	v := fr.operand(best, st)
